@@ -39,7 +39,7 @@ type Case struct {
 
 var allLayouts = []geom.Layout{geom.XY, geom.XYZ, geom.XYM, geom.XYZM, geom.Layout(5), geom.Layout(6), geom.Layout(7), geom.Layout(9), geom.NoLayout}
 
-var routes = []string{"setcoords", "mustset", "flat", "flat-noends", "push", "clone", "clonepush", "clonepush", "selfalias", "selfalias", "reserve", "reset", "wkb", "ewkb", "wkt", "geojson"}
+var routes = []string{"setcoords", "mustset", "flat", "flat-noends", "push", "clone", "clonepush", "clonepush", "selfalias", "selfalias", "reserve", "reset", "reset-twin", "wkb", "ewkb", "wkt", "geojson"}
 
 func genCase(t *rapid.T) Case {
 	floats := rapid.SampledFrom([]int{gen.AllBits, gen.AllBits, gen.SmallInt, gen.Finite}).Draw(t, "floats")
@@ -601,6 +601,30 @@ func obtain(c Case) (geom.T, string, error) {
 				pre.C3 = [][][][]model.F{{{one}}, {}, {{one, one}, {}}}
 			}
 			if _, err := setCoords(r, pre); err != nil {
+				return nil, route, err
+			}
+		}
+		t, err := setCoords(r, g)
+		return t, route, err
+	case "reset-twin":
+		// a receiver that holds the same coordinates up to what == cannot see: zeros of
+		// the other sign, NaNs with another payload
+		r := newEmpty(g.Kind, l)
+		if g.Layout != 0 {
+			twin := g.Mapped(func(x float64) float64 {
+				switch {
+				case x == 0:
+					return -x
+				case x != x:
+					b := math.Float64bits(x) ^ 2
+					if b&(1<<52-1) == 0 {
+						b ^= 6
+					}
+					return math.Float64frombits(b)
+				}
+				return x
+			})
+			if _, err := setCoords(r, twin); err != nil {
 				return nil, route, err
 			}
 		}
